@@ -119,6 +119,12 @@ Proof.
   intros parents root fuel ids Hwf. apply frmc_terminates. now apply graph_ca_below.
 Qed.
 
+(** check_case evaluates [wf_parentsb] on every case's table (stage 10), so every case lies
+    in the domain of the two theorems above. *)
+Theorem C08_graph_ca_below_checked : forall parents : list (list nat),
+  wf_parentsb parents = true -> ca_below (graph_common_ancestors parents).
+Proof. exact graph_ca_below_checked. Qed.
+
 (** The two laws for the tree the rebase finally returns, conflicted results included (all
     rounds of the resolve loop: Proofs/ResolveLoop.v). *)
 Theorem C08_full :
